@@ -227,6 +227,9 @@ def unparse_Constant(node: Constant, qm: typing.Literal["'", '"']) -> unparse_ge
     if isinstance(node.value, str):
         value = get_unescaped_str(node.value, qm)
         return f"{qm}{value}{qm}"
+    if isinstance(node.value, (float, complex)):
+        # "inf" is a name, not a literal; 1e309 overflows to inf
+        return repr(node.value).replace("inf", "1e309")
     return repr(node.value)
     yield
 
